@@ -57,7 +57,7 @@ ALL_PROPERTIES = ["ZeroSwapAtomic", "IdleSorted", "NumbersNeverReused"]
 
 DEFAULTS = {"N": 3, "Workers": 2, "Steps": 3, "MoreSteps": 0, "MaxPn": 9, "WSet": "W1", "ZeroSwap": True,
             "MaxRestarts": 0, "TrackFrac": False, "EngTypes": "OneEngine", "EngNeed": "OneNeed",
-            "LiteralOrd": False, "FormulaOrd": False, "VaryInit": False, "MaxLevel": 100}
+            "LiteralOrd": False, "FormulaOrd": False, "VaryInit": False, "OverIssue": False, "MaxLevel": 100}
 
 
 def cfg_text(consts, invariants=None, properties=None, spec="Spec"):
@@ -391,6 +391,24 @@ def renumbered_specs(seed, count, n_values=(4, 5, 6)):
         w = rnd.randrange(2, n)
         specs.append({"n": n, "workers": w, "steps": 24, "seed": rnd.randrange(10 ** 6), "sched_seed": rnd.randrange(10 ** 6),
                       "plan": [("kill", rnd.randrange(1, 4), rnd.random() < 0.5), ("renumber", RENUMBER), ("kill", rnd.randrange(6, 12), False)]})
+    return specs
+
+
+def endgame_specs(seed, count, n_values=(4, 5)):
+    """Runs that are killed with fewer steps left than workers, or continued with fewer extra steps than workers: the restarted
+    lifetime must not start more jobs than there are steps left (C17: a finished run leaves no job in flight)."""
+    rnd = random.Random(seed)
+    specs = []
+    for i in range(count):
+        n = n_values[i % len(n_values)]
+        w = rnd.randrange(2, n)
+        steps = rnd.randrange(w + 2, w + 8)
+        left = rnd.randrange(1, w)
+        plan = [("kill", steps - left, rnd.random() < 0.5)] if i % 3 != 2 else []
+        plan.append(("more", rnd.randrange(1, w)))
+        if i % 4 == 0:
+            plan.append(("more", rnd.randrange(1, w + 2)))
+        specs.append({"n": n, "workers": w, "steps": steps, "seed": rnd.randrange(10 ** 6), "sched_seed": rnd.randrange(10 ** 6), "plan": plan})
     return specs
 
 
